@@ -20,11 +20,12 @@ VALS = {
     'absent': None, 'empty': [''], 'a': ['a'], 'b': ['b'], 'a,b': ['a,b'], 'a, b': ['a, b'], 'A': ['A'],
     'a;q=1': ['a;q=1'], '"a"': ['"a"'], 'a%20': ['a%20'],
     # thorough
-    'a|b': ['a', 'b'], 'a b': ['a b'], 'a%2c b': ['a%2c b'], '%22a%22': ['%22a%22'], 'a"': ['a"'], 'b|a': ['b', 'a'],
+    'a|b': ['a', 'b'], 'a b': ['a b'], 'a%2c b': ['a%2c b'], '%22a%22': ['%22a%22'], 'a"': ['a"'], 'a%22': ['a%22'], 'b|a': ['b', 'a'],
 }
-V10 = ['absent', 'empty', 'a', 'b', 'a,b', 'a, b', 'A', 'a;q=1', '"a"', 'a%20']
+# '"a"' and its percent-encoded spelling '%22a%22' are different values: the variant key must keep them apart
+V10 = ['absent', 'empty', 'a', 'b', 'a,b', 'a, b', 'A', 'a;q=1', '"a"', 'a%20', '%22a%22']
 V5 = ['absent', 'empty', 'a', 'b', 'a, b']
-V16 = V10 + ['a|b', 'a b', 'a%2c b', '%22a%22', 'a"', 'b|a']
+V16 = V10 + ['a|b', 'a b', 'a%2c b', 'a"', 'a%22', 'b|a']
 
 VARY_ONE = ['X-V', 'x-v', 'X-V, X-V']                 # nominate X-V only
 VARY_TWO = ['X-V, X-W', 'X-W,X-V']                    # nominate both
